@@ -369,6 +369,7 @@ func runProperty(repo, prop, tier, evid, knownPath string) int {
 		fmt.Println("cannot read known findings:", err)
 		return 2
 	}
+	registerExtras()
 	rules, ok := propertyRules[prop]
 	if !ok {
 		fmt.Println("unknown property", prop)
